@@ -38,7 +38,7 @@ def run(tier, seed):
             pels = []
             for _ in range((800 if thorough else 160)):
                 p = apel.gen_pel(rng, max_sections=0)
-                p['ph']['creator'] = rng.choice([ord('O'), ord('O'), ord('x'), ord('x'), ord('B'), ord('H'), ord('Z')])
+                p['ph']['creator'] = rng.choice([ord('O'), ord('O'), ord('x'), ord('x'), ord('B'), ord('H'), ord('Z'), ord('o'), ord('b')])
                 secs = []
                 for _ in range(rng.choice([1, 2, 3, 6])):
                     kind = rng.choice(['ud', 'ud', 'ed', 'other'])
@@ -49,9 +49,9 @@ def run(tier, seed):
                         sec['hdr']['comp'] = 0x2000
                         sec['hdr']['sub'] = rng.choice([1, 1, 3, 3, 2])
                         if kind == 'ud':
-                            p['ph']['creator'] = ord('O')
+                            p['ph']['creator'] = rng.choice([ord('O'), ord('O'), ord('O'), ord('o')])
                     if kind == 'ed':
-                        sec.update(creator=rng.choice([ord('O')] * 5 + [ord('x'), ord('b'), ord('B'), 0x80, 0]), resv1=rng.randrange(256), resv2=rng.randrange(65536))
+                        sec.update(creator=rng.choice([ord('O')] * 5 + [ord('x'), ord('b'), ord('o'), ord('o'), ord('B'), 0x80, 0]), resv1=rng.randrange(256), resv2=rng.randrange(65536))
                     if sec['hdr']['comp'] == 0x2000 and sec['hdr']['sub'] in (1, 3) and rng.random() < 0.85:
                         sec['payload'] = apel.gen_payload(rng, 'json' if sec['hdr']['sub'] == 1 else 'text')
                     if kind == 'other':
